@@ -18,7 +18,7 @@ macro_rules! props {
     };
 }
 
-props!(("C01", c01), ("C02", c02), ("C03", c03), ("C04", c04), ("C05", c05), ("C06", c06), ("C07", c07), ("C08", c08), ("C09", c09), ("C10", c10), ("C11", c11), ("C12", c12), ("C13", c13), ("C14", c14), ("C15", c15), ("C16", c16), ("C17", c17));
+props!(("C01", c01), ("C02", c02), ("C03", c03), ("C04", c04), ("C05", c05), ("C06", c06), ("C07", c07), ("C08", c08), ("C09", c09), ("C10", c10), ("C11", c11), ("C12", c12), ("C13", c13), ("C14", c14), ("C15", c15), ("C16", c16), ("C17", c17), ("C18", c18), ("C19", c19), ("C20", c20));
 
 pub fn run(id: &str, tier: Tier, seed: u64, r: &mut Report) -> bool {
     let Some(ms) = models(id, tier, seed) else {
@@ -34,6 +34,7 @@ pub fn run(id: &str, tier: Tier, seed: u64, r: &mut Report) -> bool {
 pub fn child(args: &[String]) -> i32 {
     match args.first().map(|s| s.as_str()) {
         Some("c17") => c17::child(&args[1..]),
+        Some("c20") => c20::child(&args[1..]),
         _ => 2,
     }
 }
